@@ -47,8 +47,8 @@ _CMP = {
     ast.In: lambda a, b: _contains(b, a),
     ast.NotIn: lambda a, b: not _contains(b, a),
     # members of an enumeration are modelled by their qualified names (strings): identity of such values is equality
-    ast.Is: lambda a, b: a is b or (isinstance(a, str) and isinstance(b, str) and a == b),
-    ast.IsNot: lambda a, b: not (a is b or (isinstance(a, str) and isinstance(b, str) and a == b)),
+    ast.Is: lambda a, b: _same_object(a, b),
+    ast.IsNot: lambda a, b: not _same_object(a, b),
 }
 
 
@@ -262,6 +262,14 @@ class _ARegex(Abstract):
         return repr(self.rx)
 
 
+def _same_object(a: Any, b: Any) -> bool:
+    if a is b or (isinstance(a, str) and isinstance(b, str) and a == b):
+        return True
+    if isinstance(a, _TypeOf) or isinstance(b, _TypeOf):
+        return (a.cls if isinstance(a, _TypeOf) else a) is (b.cls if isinstance(b, _TypeOf) else b)
+    return False
+
+
 class _TypeOf(Abstract):
     """`type(x)` of an abstract instance: usable in isinstance(y, type(x)), `is`, `.__name__`, and as a constructor"""
 
@@ -271,13 +279,17 @@ class _TypeOf(Abstract):
         self.__dict__["__name__"] = cls.name
 
     def __eq__(self, other: Any) -> bool:
-        return isinstance(other, _TypeOf) and other.cls is self.cls
+        # (`type(x)` and the class named in the source are one and the same object in the evaluated program)
+        return (isinstance(other, _TypeOf) and other.cls is self.cls) or other is self.cls
 
     def __hash__(self) -> int:
-        return hash(self.cls.qualname)
+        return hash(self.cls)
 
     def __repr__(self) -> str:
         return "<class %s>" % self.cls.name
+
+
+MAX_DEPTH = [200]  # nesting of evaluated expressions / calls after which an evaluation gives up (raised by deep worlds)
 
 
 class _TypeFn(Abstract):
@@ -408,7 +420,7 @@ class Folder:
 
     def _fold_guarded(self, e: ast.expr) -> Any:
         self.depth += 1
-        if self.depth > 200:
+        if self.depth > MAX_DEPTH[0]:
             raise Unfoldable("recursion")
         _CURRENT.append(self)
         try:
@@ -430,7 +442,8 @@ class Folder:
                 flat = _Expanded(func=e.func, args=[_Const(v_) for v_ in fold_starred(self, e.args)], keywords=e.keywords)
                 ast.copy_location(flat, e)
                 e = flat  # (the arguments are evaluated once: whoever handles the call sees the values)
-            r = self.hook(e, self)
+            # (a hook chain that only ever answers calls says so: the other nodes do not go through it)
+            r = self.hook(e, self) if (isinstance(e, ast.Call) or not getattr(self.hook, "calls_only", False)) else NotImplemented
             if r is not NotImplemented:
                 return r
         if isinstance(e, ast.Constant):
@@ -1386,6 +1399,23 @@ class Folder:
             return getattr(math, name.split(".")[1])(*vals)
         if name == "divmod":
             return divmod(self.fold(args[0]), self.fold(args[1]))
+        if name in ("enum.auto", "auto") and not args and self.repo is not None and name.split(".")[0] not in self.env:
+            # a member of an enumeration numbered by its position: the previous member's value + 1, from 1
+            last = 0
+            owner = next((k for k in self.repo.all_classes().values() if any(getattr(st_, "value", None) is e for st_ in k.node.body)), None)
+            for st_ in owner.node.body if owner is not None else []:
+                val_ = st_.value if isinstance(st_, (ast.Assign, ast.AnnAssign)) else None
+                if val_ is None:
+                    continue
+                if isinstance(val_, ast.Call) and dotted(val_.func) in ("enum.auto", "auto"):
+                    last += 1
+                elif isinstance(val_, ast.Constant) and isinstance(val_.value, int):
+                    last = val_.value
+                else:
+                    continue
+                if val_ is e:
+                    return last
+            raise Unfoldable("call " + unparse(e))
         if name == "issubclass" and len(args) == 2 and "issubclass" not in self.env:
             sub = self.fold(args[0])
             sups = self.fold(args[1])
